@@ -21,7 +21,7 @@ for patch in "${patches[@]}"; do
     *) name="mutants/$(basename "$patch" .diff)"; prop=$(grep -h '^property=' "${patch%.diff}.meta" | cut -d= -f2) ;;
   esac
   [ -n "$only" ] && [[ "$name" != *"$only"* ]] && continue
-  if ! git -C /repo apply "$patch" 2>/dev/null; then
+  if ! git -C /repo apply "$patch" 2>/dev/null && ! { git -C /repo apply -3 "$patch" 2>/dev/null && git -C /repo reset -q; }; then
     echo "$name: patch does not apply"; rows+=("{\"patch\":\"$name\",\"property\":\"$prop\",\"applies\":false}"); continue
   fi
   res=""
